@@ -138,6 +138,7 @@ package client
 //@      // ---- C13 (inbound side): delivering to the relayed socket / the accept queue never blocks the client's read loop
 //@ func (*UDPConn).HandleInbound
 //@   requires c != nil && c.log != nil
+//@   at-send client.UDPConn.readCh assert [C05,C13:queued-is-the-payload] v != nil && v.from == from && len(v.data) == len(data) && (forall i :: 0 <= i && i < len(data) ==> v.data[i] == data[i]) && (len(data) == 0 || base(v.data) != base(data))
 //@   pure
 
 //@ func (*TCPAllocation).HandleConnectionAttempt
@@ -296,6 +297,8 @@ package client
 //@   requires udpConnReady(c) && !held(c.closeMutex) && !held(c.mutex) && !rheld(c.mutex)
 //@   at-call (*allocation).refreshAllocation assert [C14:close-sends-refresh-zero] arg0 == 0 && arg1 && closed(c.closeCh)
 //@   ensures closed(c.closeCh)
+//@   ensures [C14,C15:close-stops-refreshing] c.refreshAllocTimer.stopFunc == nil && c.refreshPermsTimer.stopFunc == nil && c.checkBindingsTimer.stopFunc == nil
+//@   at-call invoke github.com/pion/turn/v5/internal/client.Client.OnDeallocated assert [C14:close-detaches-from-client] arg0 == c.relayedAddr
 //@   ensures [C14:close-once] old(closed(c.closeCh)) ==> res == errAlreadyClosed
 //@   assigns channels, lastResponse, c._nonce, c._lifetime, c.refreshAllocTimer.stopFunc, c.refreshPermsTimer.stopFunc, c.checkBindingsTimer.stopFunc
 
@@ -340,7 +343,9 @@ package client
 //@   ensures [C13:permitted-only-after-success] permInv(perm)
 //@   ensures [C13:nil-means-permitted] res == nil ==> perm.st == permStatePermitted && granted[perm]
 //@   ensures forall q :: q != perm ==> granted[q] == old(granted[q])
-//@   ensures [C14:failed-peer-forgotten] res != nil ==> !has(a.permMap.permMap, ipKey(addr))
+//@   ensures [C14:failed-peer-forgotten] res != nil && !errIs(res, errTryAgain) ==> !has(a.permMap.permMap, ipKey(addr))
+//@   ensures [C14:retry-keeps-the-entry] errIs(res, errTryAgain) ==> forall k :: haskey(a.permMap.permMap, k) == old(haskey(a.permMap.permMap, k))
+//@   ensures [C14:success-keeps-the-table] res == nil ==> forall k :: haskey(a.permMap.permMap, k) == old(haskey(a.permMap.permMap, k))
 //@   ensures [C13:only-removes-on-failure] forall k :: haskey(a.permMap.permMap, k) ==> old(haskey(a.permMap.permMap, k)) && valat(a.permMap.permMap, k) == old(valat(a.permMap.permMap, k))
 //@   ghost-set granted[perm] = true when res == nil && old(perm.st) == permStateIdle
 //@   assigns perm.st, granted, a._nonce, lastResponse, cpOK, entries(a.permMap.permMap)
@@ -362,6 +367,8 @@ package client
 //@   at-call invoke github.com/pion/turn/v5/internal/client.Client.WriteTo assert [C13:permission-first] perm.st == permStatePermitted && granted[perm] && arg1 == c.serverAddr
 //@   at-call invoke github.com/pion/turn/v5/internal/client.Client.WriteTo assert [C13:indication-when-unconfirmed] !okState(bound.st) || true
 //@   loop 0 invariant udpWriteReady(c) && permInv(perm) && addr != nil && typeis(addr, *net.UDPAddr)
+//@   loop 0 invariant (err == nil || errIs(err, errTryAgain)) ==> has(c.permMap.permMap, ipKey(addr)) && c.permMap.permMap[ipKey(addr)] == perm
+//@   ensures [C14:granted-peer-in-refresh-set] res1 == nil ==> has(c.permMap.permMap, ipKey(addr)) && c.permMap.permMap[ipKey(addr)].st == permStatePermitted
 //@   ensures [C13:not-udp-rejected] !typeis(addr, *net.UDPAddr) ==> res1 == errUDPAddrCast && res0 == 0
 //@   ensures res1 == nil ==> res0 == len(payload)
 
@@ -372,6 +379,9 @@ package client
 //@ func (*UDPConn).ReadFrom
 //@   requires udpConnReady(c) && c.readTimer != nil
 //@   ensures [C13:read-fits] res2 == nil ==> 0 <= res0 && res0 <= len(p)
+//@   at-return assert [C05,C13:read-returns-queued] res2 == nil ==> res0 == len(ibData.data) && res1 == ibData.from
+//@   at-return assert [C05,C13:read-copies-queued] res2 == nil && base(p) != base(ibData.data) ==> (forall i :: 0 <= i && i < res0 ==> p[i] == ibData.data[i])
+//@   at-return assert [C13:short-buffer-only-when-too-small] res2 == io.ErrShortBuffer ==> len(p) < len(ibData.data)
 //@   ensures [C13:read-error-empty] res2 != nil ==> res0 == 0 && res1 == nil
 //@   loop 0 invariant udpConnReady(c) && c.readTimer != nil
 
